@@ -95,6 +95,9 @@ THEOREMS = {
         ("HH.C08.history_ok", "∀ profile, ∀ chunk lists: appends then any finalize/checkpoint all return ok (induction)"),
         ("HH.C08.constructors_inv", "new/default/from_checkpoint(arbitrary) establish the invariant"),
         ("HH.C08.profiles_wide_enough", "the theorems apply to checks on/off and to 16-, 32-, 64-bit usize (all quantified over Profile with usize >= 16 bits)"),
+        ("HH.C08.appendG_ok", "∀ state type, packet update, profile, invariant buffer, data: the append skeleton all five back ends duplicate fires no panic point and computes appendG"),
+        ("HH.C08.sse_append_ok", "instance: SseHash::append"), ("HH.C08.avx_append_ok", "instance: AvxHash::append"),
+        ("HH.C08.neon_append_ok", "instance: NeonHash::append"), ("HH.C08.wasm_append_ok", "instance: WasmHash::append"),
         ("HH.C08.sse_remainder_no_oob", "SSE remainder: every slice/index in range for every pending count (footprint model over exactly the slice)"),
         ("HH.C08.avx_remainder_no_oob", "AVX2 remainder likewise"), ("HH.C08.neon_remainder_no_oob", "NEON remainder likewise"),
         ("HH.C08.wasm_remainder_no_oob", "Wasm remainder (le_u64 indexing, slices) likewise"),
